@@ -2,7 +2,7 @@ import AvroModel.Lemmas.File
 /-!
 # C07 — The container reader delivers exactly the declared records and rejects damage
 
-Model: `AvroModel/File.lean` (`readFile` mirrors `ReadFile`, file.go:107-214). Vocabulary
+Model: `AvroModel/File.lean` (`readFile` mirrors `ReadFile`, file.go:107-210). Vocabulary
 (`Blk`, `frame`, `body`, `GoodBlk`, `ValidHeader`, `ValidFile`, `handOver`) is in `Lemmas/File.lean`.
 
 A *valid file* is `hdr ++ body H.sync bl`: a header the reader accepts as `H` (for instance any
@@ -71,7 +71,7 @@ garbage, nothing). -/
 theorem damaged_block {X : Ext α} {fuel : Nat} {hdr : Bytes} {H : Header} {sel : CodecSel} {rc : RecCodec α}
     (hv : ValidHeader X fuel hdr H sel rc) (pre : List (Blk α)) (hpre : ∀ b ∈ pre, GoodBlk (decompress X sel) rc.decode b)
     (hfuel : pre.length < fuel) (cb : Nat → Option ε) (hcb : ∀ i, cb i = none)
-    (c : Int) (p tail : Bytes) (hc : inRange 64 c) (hp : p.length ≤ maxAlloc) (k : ErrKind)
+    (c : Int) (p tail : Bytes) (hc : inRange 64 c) (hp : p.length ≤ maxLen) (k : ErrKind)
     (hbad : decompress X sel p = .err k) :
     readFile X fuel cb (hdr ++ (body H.sync pre ++ (writeVarint c ++ (writeVarint p.length ++ p) ++ tail))) =
       ⟨allVals pre, .err k⟩ := by
@@ -88,7 +88,7 @@ theorem damaged_block {X : Ext α} {fuel : Nat} {hdr : Bytes} {H : Header} {sel 
 theorem inflate {X : Ext α} {fuel : Nat} {hdr : Bytes} {H : Header} {rc : RecCodec α}
     (hv : ValidHeader X fuel hdr H .deflate rc) (pre : List (Blk α)) (hpre : ∀ b ∈ pre, GoodBlk (decompress X .deflate) rc.decode b)
     (hfuel : pre.length < fuel) (cb : Nat → Option ε) (hcb : ∀ i, cb i = none)
-    (c : Int) (p tail : Bytes) (hc : inRange 64 c) (hp : p.length ≤ maxAlloc)
+    (c : Int) (p tail : Bytes) (hc : inRange 64 c) (hp : p.length ≤ maxLen)
     (hbad : X.inflate p = none) :
     readFile X fuel cb (hdr ++ (body H.sync pre ++ (writeVarint c ++ (writeVarint p.length ++ p) ++ tail))) =
       ⟨allVals pre, .err .inflate⟩ :=
@@ -99,7 +99,7 @@ from the CRC of what the rest decodes to ⇒ error, nothing of that block delive
 theorem crc {X : Ext α} {fuel : Nat} {hdr : Bytes} {H : Header} {rc : RecCodec α}
     (hv : ValidHeader X fuel hdr H .snappy rc) (pre : List (Blk α)) (hpre : ∀ b ∈ pre, GoodBlk (decompress X .snappy) rc.decode b)
     (hfuel : pre.length < fuel) (cb : Nat → Option ε) (hcb : ∀ i, cb i = none)
-    (c : Int) (p tail d : Bytes) (hc : inRange 64 c) (hp : p.length ≤ maxAlloc) (h4 : 4 ≤ p.length)
+    (c : Int) (p tail d : Bytes) (hc : inRange 64 c) (hp : p.length ≤ maxLen) (h4 : 4 ≤ p.length)
     (hdec : X.unsnappy (p.take (p.length - 4)) = some d) (hcrc : X.crc d ≠ beU32 (p.drop (p.length - 4))) :
     readFile X fuel cb (hdr ++ (body H.sync pre ++ (writeVarint c ++ (writeVarint p.length ++ p) ++ tail))) =
       ⟨allVals pre, .err .crc⟩ := by
@@ -111,7 +111,7 @@ theorem crc {X : Ext α} {fuel : Nat} {hdr : Bytes} {H : Header} {rc : RecCodec 
 theorem snappy_garbled {X : Ext α} {fuel : Nat} {hdr : Bytes} {H : Header} {rc : RecCodec α}
     (hv : ValidHeader X fuel hdr H .snappy rc) (pre : List (Blk α)) (hpre : ∀ b ∈ pre, GoodBlk (decompress X .snappy) rc.decode b)
     (hfuel : pre.length < fuel) (cb : Nat → Option ε) (hcb : ∀ i, cb i = none)
-    (c : Int) (p tail : Bytes) (hc : inRange 64 c) (hp : p.length ≤ maxAlloc) (h4 : 4 ≤ p.length)
+    (c : Int) (p tail : Bytes) (hc : inRange 64 c) (hp : p.length ≤ maxLen) (h4 : 4 ≤ p.length)
     (hdec : X.unsnappy (p.take (p.length - 4)) = none) :
     readFile X fuel cb (hdr ++ (body H.sync pre ++ (writeVarint c ++ (writeVarint p.length ++ p) ++ tail))) =
       ⟨allVals pre, .err .snappyDecode⟩ := by
@@ -126,7 +126,7 @@ theorem snappy_short {X : Ext α} {fuel : Nat} {hdr : Bytes} {H : Header} {rc : 
     (c : Int) (p tail : Bytes) (hc : inRange 64 c) (h4 : p.length < 4) :
     readFile X fuel cb (hdr ++ (body H.sync pre ++ (writeVarint c ++ (writeVarint p.length ++ p) ++ tail))) =
       ⟨allVals pre, .err .snappyShort⟩ := by
-  apply damaged_block hv pre hpre hfuel cb hcb c p tail hc (by unfold maxAlloc; omega) .snappyShort
+  apply damaged_block hv pre hpre hfuel cb hcb c p tail hc (by unfold maxLen; omega) .snappyShort
   simp [decompress, h4]
 
 /-- **C07 (sync)**: a good block followed by sixteen bytes that differ from the header's sync marker
@@ -216,53 +216,34 @@ theorem no_codec_means_null (X : Ext α) (fuel : Nat) (cb : Nat → Option ε) (
 
 /-! ### Panics -/
 
-/-- **C07 (no panic)**: whatever the bytes, the only Go panic `ReadFile` can raise is `make`'s
-"len out of range" for a declared length above `maxAlloc` (2^48): negative lengths, snappy blocks
-shorter than their checksum and a missing codec entry are errors. (`Tame`: the record decoder
-itself returns a value or an error — the subject of C06.) -/
+/-- **C07 (no panic)**: whatever the bytes, `ReadFile` does not panic: negative lengths, snappy blocks
+shorter than their checksum and a missing codec entry are errors, and no buffer is allocated from a
+declared length (`readN` reads in chunks of at most 1 MiB). (`Tame`: the record decoder itself
+returns a value or an error — the subject of C06.) -/
 theorem no_panic (X : Ext α) (htame : ∀ js rc, X.build js = some rc → Tame rc.decode)
-    (fuel : Nat) (cb : Nat → Option ε) (bs : Bytes) (k : PanicKind)
-    (h : (readFile X fuel cb bs).res = .panic k) : k = .hugeMake := by
-  unfold readFile at h
-  split at h
-  · cases h
-  · rename_i k' hk'; cases h; exact readFileHeader_panic hk'
-  · cases h
-  · split at h
-    · cases h
-    · split at h
-      · cases h
-      · split at h
-        · cases h
+    (fuel : Nat) (cb : Nat → Option ε) (bs : Bytes) (k : PanicKind) :
+    (readFile X fuel cb bs).res ≠ .panic k := by
+  unfold readFile
+  split
+  · simp
+  · rename_i k' hk'; exact absurd hk' (readFileHeader_no_panic _ _ _)
+  · simp
+  · split
+    · simp
+    · split
+      · simp
+      · split
+        · simp
         · rename_i rc hrc
-          exact readBlocks_panic _ (fun c k => decompress_no_panic X _ c k) (htame _ _ hrc) _ _ _ _ h
+          exact readBlocks_no_panic _ (fun c k => decompress_no_panic X _ c k) (htame _ _ hrc) _ _ _ _
 
-/-- `no_panic` under the name the conventions ask for: it is the partial statement (everything but
-`make`'s length limit); the full one is `no_panic_full`, refuted by `no_panic_full_false`. -/
-theorem no_panic_partial (X : Ext α) (htame : ∀ js rc, X.build js = some rc → Tame rc.decode)
-    (fuel : Nat) (cb : Nat → Option ε) (bs : Bytes) (k : PanicKind)
-    (h : (readFile X fuel cb bs).res = .panic k) : k = .hugeMake := no_panic X htame fuel cb bs k h
-
-/-- The full-strength statement: no input makes `ReadFile` panic. It is false for the code as it
-is (`no_panic_full_false`): a declared length above 2^48 reaches `make`. -/
-def no_panic_full : Prop :=
-  ∀ (X : Ext Unit) (fuel : Nat) (cb : Nat → Option Unit) (bs : Bytes) (k : PanicKind), (readFile X fuel cb bs).res ≠ .panic k
-
-/-- magic, one metadata entry whose key declares a length of 2^62 bytes -/
-def hugeLenFile : Bytes :=
-  [0x4F, 0x62, 0x6A, 0x01, 0x02, 0x80, 0x80, 0x80, 0x80, 0x80, 0x80, 0x80, 0x80, 0x80, 0x01]
-
-theorem hugeLenFile_panics (X : Ext Unit) (cb : Nat → Option Unit) :
-    readFile X 2 cb hugeLenFile = ⟨[], .panic .hugeMake⟩ := by
-  simp [readFile, readFileHeader, readFull, hugeLenFile, File.magic, readMeta, ioVarint, ioUvarintAux, readEntries,
-    readBytes, makeBytes, maxAlloc, unzig]
-
-theorem no_panic_full_false : ¬ no_panic_full := by
-  intro h
-  have X : Ext Unit := { inflate := fun _ => none, unsnappy := fun _ => none, crc := fun _ => 0, build := fun _ => none }
-  have := h X 2 (fun _ => none) hugeLenFile .hugeMake
-  rw [hugeLenFile_panics] at this
-  exact this rfl
+/-- a length that nothing backs is an error, however large: magic, one metadata entry whose key
+declares 2^62 bytes -/
+example (X : Ext Unit) (cb : Nat → Option Unit) :
+    readFile X 2 cb [0x4F, 0x62, 0x6A, 0x01, 0x02, 0x80, 0x80, 0x80, 0x80, 0x80, 0x80, 0x80, 0x80, 0x80, 0x01] = ⟨[], .err .metaKey⟩ := by
+  have h : readN 4611686018427387904 ([] : Bytes) = .error .eof := by
+    rw [readN]; simp [readFull, chunk]
+  simp [readFile, readFileHeader, readFull, File.magic, readMeta, ioVarint, ioUvarintAux, readEntries, readBytes, unzig, h]
 
 /-- The model's step budget: with `fuel > length` the model never stops for lack of steps (the
 driver runs it with `length + 1`), so `Res.fuel` never stands for a behaviour of the code. -/
@@ -284,7 +265,7 @@ theorem valid_mkHeader (X : Ext α) (blocks : List (List (Bytes × Bytes))) (syn
 theorem GoodBlk.of_compress (decomp : Bytes → Step Bytes) (decode : Bytes → Outcome (α × Bytes)) (compress : Bytes → Bytes)
     (hlaw : ∀ x, decomp (compress x) = .ok x) (recs : List (α × Bytes)) (junk : Bytes)
     (hexact : ∀ ve ∈ recs, ∀ rest, decode (ve.2 ++ rest) = .ok (ve.1, rest))
-    (hsmall : (compress ((recs.map (·.2)).flatten ++ junk)).length ≤ maxAlloc) (hcount : recs.length < 2 ^ 63) :
+    (hsmall : (compress ((recs.map (·.2)).flatten ++ junk)).length ≤ maxLen) (hcount : recs.length < 2 ^ 63) :
     GoodBlk decomp decode { recs := recs, junk := junk, payload := compress ((recs.map (·.2)).flatten ++ junk) } :=
   { decomp := hlaw _, exact := hexact, small := hsmall, count := hcount }
 
